@@ -49,7 +49,14 @@ def oracle(ctx: Ctx, case):
             raise HarnessError("step budget exceeded (inconclusive)")
         if r.kind == "ok":
             if sched._jobs:
-                raise Violation("jobs-left-running", f"run returned with {len(sched._jobs)} unsettled jobs", case)
+                left = sorted((j.task.fullname, j.status) for j in sched._jobs)
+                if all(j.eval_args is None and j._status is None for j in sched._jobs):
+                    # created, never started: an argument (or option) of the call failed and the failure
+                    # was handled further up (catch / catch_all), so the run went on and returned
+                    raise Violation("unstarted-job-left-pending:argument-failed",
+                                    f"run returned with {len(left)} job(s) that never left PENDING: {left[:4]}; their "
+                                    f"arguments failed to evaluate and nothing settles such a job", case)
+                raise Violation("jobs-left-running", f"run returned with {len(left)} unsettled jobs: {left[:4]}", case)
             if sched._jobs_pending_limits:
                 raise Violation("jobs-left-waiting", f"run returned with {len(sched._jobs_pending_limits)} jobs waiting", case)
             with sched.backend.engine.connect() as conn:
